@@ -27,6 +27,19 @@ CLAIMED = {
    'Decides: can_catch partitions the 17 Message variants as the property states; a variant built after a consumer succeeded is final; fallback/fallback_with/hide/parse_option decision tables '
    '(per variant x catch x consumed) default only for the absence class and return the same error otherwise; repetition loops stop on failure; conversion/guard text is carried into the rendered message. '
    'Does NOT decide which error survives a particular nesting in alternatives.', 'DESIGN.md section 5 C06'),
+ 'C07': C('fork-isolation provenance, decision table of this_or_that_picks_first by abstract evaluation over (depth x err_a x err_b x tie x winner), ItemState tables + who-may-inspect census, macro witness',
+   'Decides: both alternatives run exactly once on distinct clones; the 14-row adopt-one table (which fork is swapped into the caller state, result, conflicts saved; ties to the first, deeper fork first); '
+   'the boolean selects the matching value; pick_winner scans forward over the ledgers only and reports its own side at the first mismatch; conflict-marked items stay present and only the listed functions '
+   'inspect ItemState; conflicts are reported before other guesses; construct!([..]) is a left-nested or_else chain. Does NOT decide value order under many/some.', 'DESIGN.md section 5 C07'),
+ 'C08': C('front-only/accept-set tables for take_cmd, provenance of the scope bounds, dominance (path push before inner run), return-provenance (Ok/Err only from the inner run), depth rows of the C07 table',
+   'Decides: the name must be the front unconsumed item; on a match the scope is `name index .. enclosing end`, the name is pushed on the path before the inner run, Ok and Err are exactly the inner '
+   'run_subparser outcome (wrapped final), a retry only turns failure into success; nothing is touched when unmatched; deeper fork priority; final outcomes never caught (fixed e30e3d1); adjacent commands '
+   'restore the scope (fixed 9061519). Does NOT decide acceptance of whole lines.', 'DESIGN.md section 5 C08'),
+ 'C10': C('return census, edge-restricted reachability (error only after failed help lookup), provenance of render_help arguments, 17x17 combine_with table by abstract evaluation, sibling agreement Info::eval/meta',
+   'Decides: run_subparser has exactly the listed outcome kinds; the error is rendered only on the Err edge of the help/version lookup performed on the same state; help payload describes the own level; '
+   'help before version, version only when configured (eval/meta agree); only Ambiguity precedes; a ParseFailure operand always survives combine_with; final outcomes never caught; usage fallback tests the pristine state. '
+   'Known finding: construct! drops later fields outcomes (inner help lost when an earlier field fails). Does NOT decide which failing field is reported.', 'DESIGN.md section 5 C10',
+   note='Known finding S.sequential listed in known_findings.json.'),
  'C09': C('tokenizer control-dependence/provenance rules, accept-set tables, strictness decision table by abstract evaluation',
    'Decides: after `--` the tokenizer bypasses option splitting and pushes PosWord; pos_only is set only on the literal in the non-option arm; the separator index is recorded at detection and '
    'pre-consumed; PosWord is never accepted as name, command or argument value; take_positional_word tags Word/PosWord; parse_pos_word table over Position x side; StrictPos final, NonStrictPos catchable; '
